@@ -675,7 +675,7 @@ func TestVerifC16(t *testing.T) {
 						if v != nil {
 							out = v.Fingerprint
 						}
-						r.Record(key, true, out+h.Hash(string(in))[:3])
+						r.Record(key, true, out+h.Hash(strings.ReplaceAll(string(in), env.root, "$ROOT"))[:3])
 						if seq%1501 == 0 {
 							o, _, _ := runProcess(in, cfg)
 							r.Sample(map[string]any{"config": cfg.String(), "input": trunc(string(in)), "output": trunc(o)})
